@@ -99,6 +99,8 @@ func c12(c *Ctx) {
 	r := c.R
 	c12static(c)
 	c12failurePaths(c)
+	c12oldSetFromCgroup(c)
+	c12batchSequential(c)
 	c10cacheMode(c) // both passes of the BE cpuset rewrite keep the cache describing the files: a pass that bypasses it makes the next loosening pass look unchanged
 	r.Decides("LeveledUpdateBatch runs the merge pass over the levels in ascending order and the exact pass in descending order, merge pass first, both over the same batch")
 	r.Decides("cpuset.cpus, cpu.cfs_quota_us and memory.min/low/high are registered with a mergeable updater and the matching merge condition")
